@@ -316,6 +316,7 @@ class Timeline:
                     # throws a CPU exception? Generally, tracks should be stopped to prevent runaway repeats
                     # of errors.
                     self.tracks.remove(track)
+                    track.release_notes()
                 else:
                     raise
             if track.is_finished and track.remove_when_done:
@@ -618,6 +619,7 @@ class Timeline:
         if track not in self.tracks:
             raise TrackNotFoundException("Track is not currently scheduled")
         self.tracks.remove(track)
+        track.release_notes()
 
     def _schedule_action(self,
                          function: Callable,
